@@ -55,5 +55,5 @@ static void bfs(const Config &c,int maxdepth,Stats &st,const std::function<bool(
 	if(frontier.empty()){ st.fixpoint=true; st.depth_done=curdepth+1; } else if(!capped) st.depth_done=curdepth; else st.depth_done=curdepth; }
 // all sequences up to depth, no dedup; sharded by the first operation
 static void nodedup(const Config &c,int depth,int sh,int n,Stats &st){ std::vector<int> h; std::function<void(int)> rec=[&](int d){ if(d==depth){ vf::announce(c.label+" "+hist_str(c,h)); RunResult r=run_history(c,h); st.traces++; vf::eval(); vf::guard("nodedup_sequences"); if(!r.ok){ std::string hs2; for(size_t i=0;i<h.size();i++) hs2+=(i?",":"")+std::to_string(h[i]); vf::violation(c.label+":"+r.sig,r.what+" [history: "+hist_str(c,h)+", "+c.label+"]","\"config\":"+vf::jstr(c.label)+",\"history\":["+hs2+"],\"history_text\":"+vf::jstr(hist_str(c,h))); } return; }
-		for(size_t op=0;op<c.ops.size();op++){ if(d==0&&(int)(op%n)!=sh) continue; h.push_back(op); rec(d+1); h.pop_back(); } }; rec(0); }
+		for(size_t op=0;op<c.ops.size();op++){ if(d==0&&(int)(op%n)!=sh) continue; if(vf::deadline_reached()){ if(vf::C().exhaustive){ vf::C().exhaustive=false; vf::guard("nodedup_capped_by_budget"); } return; } h.push_back(op); rec(d+1); h.pop_back(); } }; rec(0); }
 } // namespace cb
